@@ -432,7 +432,8 @@ def family_groups(mon, rec, rng, count):
     under the name f: every spelling of a call must bind the same arguments"""
     from vmon import families as fam
     from vmon.props import c05
-    vals = {'object': ['a', 'i', 's'], 'A': ['a', 'b', 'c'], 'B': ['b', 'c'], 'C': ['c'], 'D': ['d'], 'int': ['i'], 'str': ['s']}
+    vals = {'object': ['a', 'i', 's', 't'], 'A': ['a', 'b', 'c'], 'B': ['b', 'c'], 'C': ['c'], 'D': ['d'], 'int': ['i'], 'str': ['s'],
+            'tuple': ['t'], 'Seq': ['t', 's'], 'Num': ['i', 'f'], 'float': ['f'], 'anyof:str,int': ['s', 'i'], 'anyof:A,tuple': ['a', 'c', 't']}
     for n in range(count):
         spec = c05.gen_overload(rng, 't', rng.choice(['function', 'function', 'extension']), False, False)
         spec.params = [p for p in spec.params if p.kind != 'kwargs']
